@@ -819,6 +819,15 @@ def runSplit (c : Json) : Option Json := do
   pure (Json.mkObj [("post", pToJson (Split.post id a)), ("aggs", Json.arr (aggs.map Json.str).toArray),
     ("pre", Json.arr (pre.map Json.str).toArray), ("group_by", Json.num (JsonNumber.fromNat 0))])
 
+/-- stream `splitlist`: the columns of the top Map of a whole select list, each with its aggregates put back (`post id` read as the item) -/
+def runSplitList (c : Json) : Option Json := do
+  let itemsJ ← (c.getObjVal? "items").toOption >>= fun a => a.getArr?.toOption
+  let items ← itemsJ.toList.mapM aOfJson?
+  let named := (List.range items.length).zip items |>.map fun (i, a) => (s!"o{i}", a)
+  -- `topAll` with the identity naming (a column is named by its content); the order is the list's
+  let cols := (Split.topAll id named).map fun c => Json.arr #[Json.str c.1, pToJson c.2]
+  pure (Json.arr cols.toArray)
+
 def runValues (c : Json) : Option Json := do
   let vs ← (c.getObjVal? "vals").toOption >>= fun a => a.getArr?.toOption
   let ns ← vs.toList.mapM jInt?
@@ -853,6 +862,7 @@ def handle (line : String) : Json :=
       | "injlat" => runInjLat c
       | "dpevent" => runDpEvent c
       | "hierops" => runHierOps c
+      | "splitlist" => runSplitList c
       | "injtime" => runInjTime c
       | "exprprint" => runExprPrint c
       | "dpquery" => runDpQuery ((j.getObjVal? "aux").toOption.getD Json.null)
